@@ -202,12 +202,19 @@ func (t *taintEngine) seed() {
 					}
 				}
 			}
+			// the value of a variable: whatever the program last assigned,
+			// including $nil for a variable backed by a nil-able Go type
+			if c.Call.IsInvoke() && c.Call.Method.Name() == "Get" && core.IsNamed(c.Call.Value.Type(), pkgEval+"/vars", "Var") {
+				t.mark(c, "value of a variable in "+fname)
+			}
 			callee := c.Call.StaticCallee()
 			if callee == nil {
 				return
 			}
 			cp := core.PkgPathOf(callee)
 			switch {
+			case cp == pkgEval+"/vars" && callee.Name() == "Get" && callee.Signature.Recv() != nil && core.RecvName(callee.Signature.Recv().Type()) == "PtrVar":
+				t.mark(c, "value of a variable in "+fname)
 			case cp == pkgEval && callee.Name() == "evalForValue":
 				t.mark(c, "evalForValue result in "+fname)
 			case cp == pkgEval && callee.Name() == "evalForFd":
